@@ -59,13 +59,22 @@ def generate(chk):
 
 def _generate(chk):
     from note_seq import musicxml_parser as mp, musicxml_reader as mr, constants
-    keys = None
-    for node in ast.walk(ast.parse(inspect.getsource(mr.musicxml_to_sequence_proto))):
-        if isinstance(node, ast.Assign) and getattr(node.targets[0], 'id', None) == 'music_proto_keys':
-            keys = ast.literal_eval(node.value)
-    if not (isinstance(keys, list) and all(isinstance(k, int) for k in keys)):
-        chk.broken.append('translator:C05 (music_proto_keys literal not found in musicxml_to_sequence_proto)')
-        keys = []
+    # the fifths -> proto-key table: a literal of 15 pitch classes assigned to a name, inside the conversion function (as in
+    # the pinned source) or at module level (a maintainer's "hoist the constant" refactoring); whatever its name is
+    cands = []
+    for node in ast.walk(ast.parse(inspect.getsource(mr))):
+        if isinstance(node, ast.Assign) and len(node.targets) == 1 and isinstance(node.targets[0], ast.Name) \
+                and isinstance(node.value, (ast.List, ast.Tuple)):
+            try:
+                v = list(ast.literal_eval(node.value))
+            except (ValueError, SyntaxError):
+                continue
+            if len(v) == 15 and all(isinstance(k, int) and not isinstance(k, bool) for k in v):
+                cands.append(v)
+    if len(cands) != 1:
+        # leave the last regenerated file in place: a translator give-up (recorded; the correspondence still ties the model)
+        raise ValueError('fifths -> key table literal of musicxml_reader not found (%d candidates)' % len(cands))
+    keys = cands[0]
     st = mp.MusicXMLParserState()
     # step -> pitch class, by evaluating pitch_to_midi_pitch(step, 0, 0) - 12 on every printable ASCII
     # character and a few longer strings; steps that raise PitchStepParseError are not in the table
